@@ -1,5 +1,6 @@
 (** C16 (last will, router half): who changes [r_wills], and what [handle_last_will] appends. *)
 From Rumqtt Require Export Router.RetainedStore.
+From Rumqtt Require Import Router.RetainedReplay.
 From Coq Require Import ZifyBool ZifyN ZifyNat.
 
 (* ------------------------------------------------------------------ handle_new_connection *)
